@@ -82,7 +82,7 @@ func (x *fcWorld) emit(op, human string, a, b int64) {
 	x.human = append(x.human, fmt.Sprintf("%s=>(%d,%d)", human, a, b))
 }
 
-func b2i(b bool) int64 {
+func fcB2i(b bool) int64 {
 	if b {
 		return 1
 	}
@@ -193,13 +193,13 @@ func (x *fcWorld) sUpdSend(i int, off int64) {
 		x.fail("flowctl/update-send-window/stream", fmt.Sprintf("stream %d UpdateSendWindow(%d)=%v with largest limit so far %d", i, off, upd, st.maxSend))
 	}
 	st.maxSend = max(st.maxSend, off)
-	x.emit(u.App("SUpdSend", u.Z(int64(i)), u.Z(off)), fmt.Sprintf("s%d.UpdateSendWindow(%d)", i, off), b2i(upd), 0)
+	x.emit(u.App("SUpdSend", u.Z(int64(i)), u.Z(off)), fmt.Sprintf("s%d.UpdateSendWindow(%d)", i, off), fcB2i(upd), 0)
 }
 
 func (x *fcWorld) sBlocked(i int) {
 	st := x.streams[i]
 	b := st.fc.IsNewlyBlocked()
-	x.emit(u.App("SBlocked", u.Z(int64(i))), fmt.Sprintf("s%d.IsNewlyBlocked()", i), b2i(b), 0)
+	x.emit(u.App("SBlocked", u.Z(int64(i))), fmt.Sprintf("s%d.IsNewlyBlocked()", i), fcB2i(b), 0)
 	if b {
 		st.blocked[st.maxSend]++
 		if st.blocked[st.maxSend] > 1 {
@@ -213,7 +213,7 @@ func (x *fcWorld) sBlocked(i int) {
 
 func (x *fcWorld) cBlockedOp() {
 	b, off := x.conn.IsNewlyBlocked()
-	x.emit("CBlocked", "conn.IsNewlyBlocked()", b2i(b), int64(off))
+	x.emit("CBlocked", "conn.IsNewlyBlocked()", fcB2i(b), int64(off))
 	if b {
 		x.cBlocked[int64(off)]++
 		if x.cBlocked[int64(off)] > 1 {
@@ -234,7 +234,7 @@ func (x *fcWorld) cUpdSend(off int64) {
 		x.fail("flowctl/update-send-window/conn", fmt.Sprintf("conn UpdateSendWindow(%d)=%v with largest limit so far %d", off, upd, x.cMaxSend))
 	}
 	x.cMaxSend = max(x.cMaxSend, off)
-	x.emit(u.App("CUpdSend", u.Z(off)), fmt.Sprintf("conn.UpdateSendWindow(%d)", off), b2i(upd), 0)
+	x.emit(u.App("CUpdSend", u.Z(off)), fmt.Sprintf("conn.UpdateSendWindow(%d)", off), fcB2i(upd), 0)
 }
 
 func (x *fcWorld) cSendWin() {
@@ -300,7 +300,7 @@ func (x *fcWorld) sRead(i int, n int64) {
 	st := x.streams[i]
 	hs, hc := st.fc.AddBytesRead(protocol.ByteCount(n))
 	st.credit += n
-	x.emit(u.App("SRead", u.Z(int64(i)), u.Z(n)), fmt.Sprintf("s%d.AddBytesRead(%d)", i, n), b2i(hs), b2i(hc))
+	x.emit(u.App("SRead", u.Z(int64(i)), u.Z(n)), fmt.Sprintf("s%d.AddBytesRead(%d)", i, n), fcB2i(hs), fcB2i(hc))
 }
 
 func (x *fcWorld) sAbandon(i int) {
@@ -359,7 +359,7 @@ func (x *fcWorld) cWinUpd() {
 
 func (x *fcWorld) cReset() {
 	err := x.conn.Reset()
-	x.emit("CReset", "conn.Reset()", b2i(err != nil), 0)
+	x.emit("CReset", "conn.Reset()", fcB2i(err != nil), 0)
 	if err == nil {
 		// what connection.go does on 0-RTT rejection: all streams are discarded
 		x.streams = nil
